@@ -15,15 +15,16 @@ def confirm(ID, v):
     assert sh(f'git -C {wt} status --porcelain').stdout.strip()=='' , 'worktree dirty'
     rel=demo_path(f'{src}/demo.rs'); assert rel, 'no place-at comment'
     testname=os.path.basename(rel)[:-3]; crate=rel.split('/')[0]
+    head=''.join(open(f'{src}/demo.rs').readlines()[:3]); fm=re.search(r'--features[ =](\S+)', head); feat=f' --features {fm.group(1)}' if fm else ''
     try:
         r=sh(f'git -C {wt} apply {src}/patch.diff'); assert r.returncode==0, r.stderr
         t=sh(f'cd {wt} && CARGO_NET_OFFLINE=true timeout -k 5 600 cargo test --workspace --no-fail-fast --offline 2>&1 | grep -E "^test result|^error"; echo rc=${{PIPESTATUS[0]}}').stdout
         out['suite_with_change']= 'pass' if ('FAILED' not in t and 'rc=0' in t and 'error' not in t) else 'FAIL: '+t[-300:]
         shutil.copy(f'{src}/demo.rs', f'{wt}/{rel}')
-        d=sh(f'cd {wt} && CARGO_NET_OFFLINE=true timeout -k 5 600 cargo test -p {crate} --test {testname} --offline 2>&1 | tail -5; echo rc=${{PIPESTATUS[0]}}').stdout
+        d=sh(f'cd {wt} && CARGO_NET_OFFLINE=true timeout -k 5 600 cargo test -p {crate}{feat} --test {testname} --offline 2>&1 | tail -5; echo rc=${{PIPESTATUS[0]}}').stdout
         out['demo_with_change']='fails' if 'rc=0' not in d else 'PASSES(unexpected)'
         sh(f'git -C {wt} checkout -- .')
-        d=sh(f'cd {wt} && CARGO_NET_OFFLINE=true timeout -k 5 600 cargo test -p {crate} --test {testname} --offline 2>&1 | tail -5; echo rc=${{PIPESTATUS[0]}}').stdout
+        d=sh(f'cd {wt} && CARGO_NET_OFFLINE=true timeout -k 5 600 cargo test -p {crate}{feat} --test {testname} --offline 2>&1 | tail -5; echo rc=${{PIPESTATUS[0]}}').stdout
         out['demo_without_change']='passes' if 'rc=0' in d else 'FAILS(unexpected): '+d[-300:]
     finally:
         sh(f'git -C {wt} checkout -- .'); 
@@ -38,20 +39,23 @@ def confirm(ID, v):
     print(ID, v, out)
 def run(ID, v, props):
     dst=f'/verif/seeded/{ID}_{v}'
-    assert sh('git -C /repo status --porcelain').stdout.strip()=='', '/repo dirty'
+    lane=os.environ.get('LANE')
+    REPO=f'/tmp/lane{lane}/repo' if lane else '/repo'
+    VER=f'/tmp/lane{lane}/verif' if lane else '/verif'
+    assert sh(f'git -C {REPO} status --porcelain').stdout.strip()=='', f'{REPO} dirty'
     if not props:
         props=[c['property_id'] for c in json.load(open('/verif/MANIFEST.json'))['checks']]
     res={}
     try:
-        r=sh(f'git -C /repo apply {dst}/patch.diff'); assert r.returncode==0, r.stderr
+        r=sh(f'git -C {REPO} apply {dst}/patch.diff'); assert r.returncode==0, r.stderr
         for p in props:
-            r=sh(f'cd /verif && VERIF_DIR=/tmp/vt_seed ./check {p} quick')
+            r=sh(f'cd {VER} && ' + (f'VERIF_DIR={VER}' if lane else 'VERIF_DIR=/tmp/vt_seed') + f' ./check {p} quick')
             res[p]={0:'missed',1:'CAUGHT',2:'inconclusive'}.get(r.returncode,str(r.returncode))
             if r.returncode==1:
                 m=[l for l in r.stdout.splitlines() if l.startswith('  ')]
                 res[p]+=': '+(m[0].strip()[:200] if m else '')
     finally:
-        sh('git -C /repo checkout -- .')
+        sh(f'git -C {REPO} checkout -- .')
     meta=json.load(open(f'{dst}/meta.json')) if os.path.exists(f'{dst}/meta.json') else {}
     meta['quick_checks']=res
     meta['caught_by']=[p for p,v2 in res.items() if v2.startswith('CAUGHT')]
